@@ -32,12 +32,14 @@ MENU = [("file.a", "modules.m1"), ("file.a", "modules.m2"), ("file.b", "modules.
         ("modules.m2", "modules.m2.sib"), ("apps.app2", "modules.m2"),
         # 9..13: a second path to the shared module (diamond file.a -> m1 -> m2 <- m11 <- file.a), a module below it, prefix-named importers
         ("file.a", "modules.m11"), ("modules.m11", "modules.m2"), ("modules.m2", "modules.leaf"), ("apps.app11", "modules.m1"),
-        ("file.b", "modules.m11")]
+        ("file.b", "modules.m11"),
+        # 14: a module reached only through a package's sub-file (file.a -> m2 -> m2.sib -> leaf)
+        ("modules.m2.sib", "modules.leaf")]
 
 
 def graphs(tier):
     full = list(range(len(MENU)))
-    base = [(), tuple(full), (0,), (0, 4), (0, 2, 4, 7), (5, 6), (1, 3, 8, 7), (0, 1, 4), (0, 4, 9, 10, 11), (5, 12, 2, 13, 10, 11)]
+    base = [(), tuple(full), (0,), (0, 4), (0, 2, 4, 7), (5, 6), (1, 3, 8, 7), (0, 1, 4), (0, 4, 9, 10, 11), (5, 12, 2, 13, 10, 11), (1, 7, 14), (3, 8, 7, 14, 5)]
     if tier == "quick":
         return base
     more = [(i,) for i in full] + [(i, j) for i, j in itertools.combinations(full, 2) if (i + j) % 3 == 0] + \
@@ -109,7 +111,8 @@ def apply_edit(w, m, edit, edges):
         if target not in m.apps:
             return False
         m.apps[target] += 1
-    w.conf["apps"] = {a: {"val": v} for a, v in m.apps.items()}
+    # app11 starts with an empty yaml entry (apps: {app11: }), which counts as configured
+    w.conf["apps"] = {a: ({"val": v} if (a != "app11" or v > 1) else None) for a, v in m.apps.items()}
     return True
 
 
@@ -125,7 +128,7 @@ def run_case(graph, edits1, reload1, edit2, legacy=False):
     edges = edges_of(graph)
     m = RM.ReloadModel(edges)
     files = {p: src(c, 1, edges) for p, c in RM.FILES.items()}
-    w = World(files, legacy=legacy, config={"apps": {"app1": {"val": 1}, "app2": {"val": 1}, "app11": {"val": 1}}})
+    w = World(files, legacy=legacy, config={"apps": {"app1": {"val": 1}, "app2": {"val": 1}, "app11": None}})
     try:
         for p in RM.FILES:
             m.files[p]["mtime"] = os.path.getmtime(os.path.join(w.psdir, p))
